@@ -124,11 +124,7 @@ func Verif_C20_protocol() {
 	}
 	vs.Schedules(pre)
 	w := c20Setup()
-	exits := 3
-	if vs.Thorough() {
-		exits = 4
-	}
-	go w.worker(exits)
+	go w.worker(4)
 	go func() {
 		w.signal(vs.Choice("sig0.suspend", 2) == 1)
 		vs.Yield() // signals arrive at arbitrary times: the worker may get anywhere before the next one
